@@ -255,15 +255,42 @@ Definition l_find_pos (k : kind) (key : Z) (H : heap) (h : hdr) : option slot :=
   if is_hashk k then l_find H h key
   else if is_pool k then None else find_val H key (items H h).
 
+(* a run of insertions of the elements of [src]; [off] as in StableModel.ins_fold.  At the end (None) the position is
+   the container's own endItem; for List::insert(position, const List&) the position iterator is re-obtained by walking
+   to index p + (number of items inserted so far) - it is the same item the code's `pos` keeps designating *)
+Definition l_ins_ptr (k : kind) (side : bool) (off : option (nat * nat)) (H : heap) (h : hdr) : ptr :=
+  match off with
+  | None => PEnd side
+  | Some (p, n0) =>
+      if is_pool k && negb (is_hashk k) then PEnd side else iter_at H (p + (hd_size h - n0)) (hd_begin h)
+  end.
+Definition lins_f (k : kind) (side : bool) (off : option (nat * nat)) :=
+  fun (acc : heap * hdr * nat * nat * list event) (e : node) =>
+    let '(H1, h1, ser1, nid1, ev1) := acc in
+    let '(H2, h2, ser2, nid2, ev2) := l_insert k (l_ins_ptr k side off H1 h1) (n_key e) (n_val e) H1 h1 ser1 nid1 in
+    (H2, h2, ser2, nid2, ev1 ++ ev2).
+
 (* operator=(other): clear, then append every (key, payload) of the other container *)
 Definition l_assign (k : kind) (side : bool) (src : list node) (H : heap) (h : hdr) (ser nid : nat)
   : heap * hdr * nat * nat * list event :=
   let '(H0, h0, ev0) := l_clear k side H h in
-  fold_left (fun (acc : heap * hdr * nat * nat * list event) e =>
-               let '(H1, h1, ser1, nid1, ev1) := acc in
-               let '(H2, h2, ser2, nid2, ev2) := l_insert k (PEnd side) (n_key e) (n_val e) H1 h1 ser1 nid1 in
-               (H2, h2, ser2, nid2, ev1 ++ ev2))
-            src (H0, h0, ser, nid, ev0).
+  fold_left (lins_f k side None) src (H0, h0, ser, nid, ev0).
+
+(* List::append / prepend / insert(position, ..) (const List&), HashSet::append(const HashSet&) *)
+Definition l_insert_all (k : kind) (side : bool) (pos : option nat) (src : list node) (H : heap) (h : hdr) (ser nid : nat)
+  : heap * hdr * nat * nat * list event :=
+  fold_left (lins_f k side (match k with KList => option_map (fun p => (p, hd_size h)) pos | _ => None end)) src (H, h, ser, nid, []).
+
+(* HashSet::remove(const HashSet&): find + remove(iterator) for every key of the other set *)
+Definition lrem_f (k : kind) :=
+  fun (acc : heap * hdr * list event) (e : node) =>
+    let '(H1, h1, ev1) := acc in
+    match l_find_pos k (n_key e) H1 h1 with
+    | Some s => let '(H2, h2, ev2) := l_remove_item k s H1 h1 in (H2, h2, ev1 ++ ev2)
+    | None => acc
+    end.
+Definition l_remove_all (k : kind) (src : list node) (H : heap) (h : hdr) : heap * hdr * list event :=
+  fold_left (lrem_f k) src (H, h, []).
 
 (* a.swap(b): exchange of the header fields, the last items are re-anchored to the other endItem *)
 Definition l_swap (H : heap) (ha hb : hdr) : heap * hdr * hdr :=
@@ -315,6 +342,15 @@ Definition lstep (k : kind) (cap : nat) (L : lstate) (o : op) : lstate * list ev
         let '(H', h', ser', nid', ev) := l_assign k side (lelems H (lother L)) H h (l_ser L) (l_nid L) in (lset L H' h' ser' nid', ev)
       else (L, [])
   | ODestroy => let '(H', h', ev) := l_destroy side cap H h in (lset L H' h' (l_ser L) (l_nid L), ev)
+  | OInsAll pos =>
+      if has_insall k then
+        let '(H', h', ser', nid', ev) := l_insert_all k side pos (lelems H (lother L)) H h (l_ser L) (l_nid L) in (lset L H' h' ser' nid', ev)
+      else (L, [])
+  | ORemAll =>
+      if has_remall k then
+        let '(H', h', ev) := l_remove_all k (lelems H (lother L)) H h in (lset L H' h' (l_ser L) (l_nid L), ev)
+      else (L, [])
+  | OHint _ _ _ => (L, [])          (* only Map has it; Map / MultiMap are not in this machine *)
   end.
 
 Fixpoint lrun (k : kind) (cap : nat) (L : lstate) (ops : list op) : lstate :=
